@@ -580,12 +580,74 @@ def check_xlib(case, R=None):
     if case.get('choices') is not None:
         look(xp.replay(body, case['choices'], private=True))
         return out
-    st = xp.explore(body, look, on_partial=look, hashing=True, horizon=400, max_execs=60000,
-                    private=True)
+    try:
+        st = xp.explore(body, look, on_partial=look, hashing=True, horizon=400, max_execs=60000,
+                        private=True)
+    except xp.Divergence as e:
+        # The explorer re-executes the call from scratch with a recorded prefix
+        # of answers; a different behaviour under the SAME answers means the
+        # call is not a function of (arguments, seed, random stream): something
+        # survived from an earlier call in this process.
+        return out + [{'key': 'xlib:%s:depends-on-earlier-calls' % case['fn'].split(':')[0],
+                       'what': '%s(seed=%r) behaves differently when it is called again with the '
+                               'same random answers (%s)' % (case['fn'], seed, e), 'case': dict(case)}]
     if R is not None:
         for k in ('executions', 'states', 'transitions', 'cap_hit'):
             R.stats['xlib_' + k] += st[k]
     return out
+
+
+def check_xtwice(case, R=None):
+    """Same seed twice in one process, under every pseudo-random stream: the
+    explorer models a seeded generator (engine/xp streams=True: after seed(a)
+    the answers are an arbitrary but fixed function of the position, replayed
+    when the same seed is set again), the call is made twice and both results
+    must be equal.  Deviation-bounded around the all-zero schedule (which
+    drives rejection samplers into their fallbacks) and around a mixed one."""
+    from engine import xp
+    calls = xlib_calls()
+    f = calls[case['fn']]
+    seed = case['seed']
+    out = []
+
+    def body():
+        a = f(seed)
+        b = f(seed)
+        return (a, b)
+
+    def look(x):
+        if x['exception'] is not None:
+            return
+        a, b = x['result']
+        if a != b and not out:
+            c = dict(case)
+            c['choices'] = list(x['choices'])
+            out.append({'key': 'xtwice:%s:same-seed-differs' % case['fn'].split(':')[0],
+                        'what': '%s called twice with seed=%r under the same pseudo-random stream '
+                                'returns %r and then %r' % (case['fn'], seed, a, b), 'case': c})
+    kw = dict(hashing=False, private=True, streams=True, horizon=600,
+              default=case.get('default', 'zero'), default_seed=case.get('default_seed', 0))
+    if case.get('choices') is not None:
+        look(xp.replay(body, case['choices'], **{k: v for k, v in kw.items() if k != 'hashing'}))
+        return out
+    try:
+        st = xp.explore(body, look, max_dev=case.get('max_dev', 2), max_execs=4000, **kw)
+    except xp.Divergence as e:
+        return out + [{'key': 'xtwice:%s:depends-on-earlier-calls' % case['fn'].split(':')[0],
+                       'what': '%s(seed=%r) behaves differently when the whole experiment is repeated '
+                               'with the same random answers (%s)' % (case['fn'], seed, e),
+                       'case': dict(case)}]
+    if R is not None:
+        R.stats['xtwice_executions'] += st['executions']
+        R.stats['xtwice_completed'] += st['completed']
+    return out
+
+
+def run_xtwice(chunk, R):
+    for case in chunk:
+        R.extend(check_xtwice(case, R))
+        R.stats['xtwice_cases'] += 1
+        R.case(sample=case if R.evals % 7 == 0 else None, nontrivial=True)
 
 
 def run_xlib(chunk, R):
@@ -608,6 +670,8 @@ def replay(case):
         return check_library(case)
     if case.get('part') == 'X':
         return check_xlib(case)
+    if case.get('part') == 'Y':
+        return check_xtwice(case)
     if case.get('part') == 'M':
         return check_monitor(case)[0]
     # process part: rerun the single command under all configurations
@@ -666,4 +730,11 @@ def shards(tier, seed):
     for i in range(6):
         if xl[i::6]:
             out.append(('x%03d' % i, 'run_xlib', xl[i::6]))
+    yl = []
+    for fn in sorted(xlib_calls()):
+        yl.append({'part': 'Y', 'fn': fn, 'seed': 3, 'default': 'zero', 'max_dev': 2})
+        yl.append({'part': 'Y', 'fn': fn, 'seed': 0, 'default': 'mix', 'default_seed': 1, 'max_dev': 1})
+    for i in range(6):
+        if yl[i::6]:
+            out.append(('y%03d' % i, 'run_xtwice', yl[i::6]))
     return out
